@@ -668,18 +668,13 @@ def run_gr_case(ctx, inp):
     def slots(mrd):
         ball = np.pi * (edges0.max() + dr) ** 2 if dim == 2 else (4. / 3.) * np.pi * (edges0.max() + dr) ** 3
         v = ball * dens * mrd
-        return int(v), abs(v - round(v)) < 1e-9 * max(1.0, v)
+        # the code reserves at least two slots (the particle itself + one neighbour)
+        return max(int(v), 2), abs(v - round(v)) < 1e-9 * max(1.0, v)
     mrd = inp["max_rel_ndensity"]
     mrd_eff = 10 if mrd is None else mrd
     k0, _ = slots(mrd_eff)
-    if k0 <= 1:
-        # EXCLUDED CLASS (reported as a defect of the unchanged tree, not silenced by an oracle):
-        # a sample so sparse for this cutoff that max_p_count = int(ball * ndensity *
-        # max_rel_ndensity) is 0 or 1 makes cKDTree.query return nothing / a 1-D array and
-        # pair_correlation_* dies with ValueError / IndexError instead of returning g(r) (= 0
-        # wherever there are no pairs) or the documented RuntimeError.
-        res.stat("gr_sparse_slots_le_1_skipped")
-        return res
+    if k0 <= 2:
+        res.stat("gr_sparse_two_slots")       # a sample that is sparse for this cutoff (was a crash: §8.1)
     if len(sel) * k0 > GR_MAX_ARRAY:
         res.stat("gr_too_large_skipped")
         return res
